@@ -3,11 +3,13 @@ package harness
 import (
 	"context"
 	"encoding/binary"
+	"errors"
 	"fmt"
 	"net"
 	"net/http"
 	"net/http/httptest"
 	"net/url"
+	"strings"
 	"time"
 
 	"github.com/jech/storrent/config"
@@ -81,9 +83,15 @@ func privacyMain(rc *RunCtx) {
 	}
 	config.DefaultUseTrackers, config.DefaultUseWebseeds, config.DefaultDhtMode = useTr, useWs, mode
 	w.SysIP6 = simrt.Pick(st, "", "2001:db8::7")
+	// sometimes the first tier has a second tracker behind one that is slow and then fails
+	twoInTier := st.Bool(1, 3)
+	tiers := [][]string{{"http://tracker.example/announce"}, {"udp://utracker.example:6969/announce"}}
+	if twoInTier {
+		tiers = [][]string{{"http://slowtracker.example/announce", "http://tracker.example/announce"}, {"udp://utracker.example:6969/announce"}}
+	}
 	spec := GenTorSpec(st, SpecOpts{
 		MaxPieces: 4, MultiFile: 1,
-		Trackers: [][]string{{"http://tracker.example/announce"}, {"udp://utracker.example:6969/announce"}},
+		Trackers: tiers,
 		URLList:  []string{"http://ws.example/base/"},
 	})
 	env := &privEnv{rc: rc, w: w, proxied: proxied}
@@ -100,6 +108,9 @@ func privacyMain(rc *RunCtx) {
 			rc.Fail("C18", "tracker-contact", "http", "HTTP tracker contacted at epoch %d although tracker use has been off since before the last quiescent point (configurations: %v)", rec.Epoch, env.states)
 		}
 		if proxied {
+			if ua := req.Header.Get("User-Agent"); strings.Contains(strings.ToLower(ua), "torrent") {
+				rc.Fail("C18", "version-revealed", "http-tracker", "a proxied torrent told its tracker User-Agent: %s", ua)
+			}
 			if rec.Via != proxy {
 				rc.Fail("C18", "proxy-bypass", "http-tracker", "a proxied torrent's tracker request went via %q", rec.Via)
 			}
@@ -110,6 +121,21 @@ func privacyMain(rc *RunCtx) {
 			rc.Fail("C18", "proxy-spurious", "http-tracker", "an unproxied torrent's tracker request went via %q", rec.Via)
 		}
 		return rt.httpHandler(w, req, rec)
+	}
+	slowContacts := 0
+	w.HTTP["slowtracker.example"] = func(w *World, req *http.Request, rec *HTTPRec) (*http.Response, error) {
+		trackerContacts++
+		slowContacts++
+		if !env.allowed(rec.Epoch, func(c peer.TorConf) bool { return c.UseTrackers }) && slowContacts == 1 {
+			rc.Fail("C18", "tracker-contact", "http-slow", "HTTP tracker contacted at epoch %d although tracker use has been off since before the last quiescent point", rec.Epoch)
+		}
+		// slow, then it fails
+		simrt.Fault("tracker-slow-then-fails")
+		simrt.Sleep(time.Duration(20+st.Choice(200)) * time.Second)
+		if st.Bool(1, 2) {
+			return nil, errors.New("simulated: connection timed out")
+		}
+		return MakeResponse(503, nil, w.Body(req.Context(), []byte("busy")), 4), nil
 	}
 	w.UDP["utracker.example:6969"] = func(w *World, c *udpConn, data []byte) []UDPReply {
 		trackerContacts++
@@ -188,6 +214,28 @@ func privacyMain(rc *RunCtx) {
 		} else {
 			t.AddKnown(p.Addr, nil, "", known.Tracker)
 		}
+	}
+	if st.Bool(1, 2) {
+		// a peer that holds everything, lets itself be asked and never
+		// delivers, then leaves: requests are dropped while the switches
+		// are what they are
+		cfg := drawSeedCfg(st, "silent-holder", 7100)
+		cfg.Ext = true
+		cfg.AnswerWeights = []int{0, 0, 1, 0, 0, 0, 0, 0, 0, 0}
+		cfg.UnchokeAfter = 0
+		ph := w.NewPeer(spec, cfg)
+		peers = append(peers, ph)
+		if st.Bool(1, 2) {
+			ph.Connect()
+		} else {
+			t.AddKnown(ph.Addr, nil, "", known.Tracker)
+		}
+		d := time.Duration(30+st.Choice(600)) * time.Second
+		simrt.GoNamed("silent-holder-leaves", func() {
+			simrt.Sleep(d)
+			simrt.Fault("peer-disconnect")
+			ph.Disconnect(st.Bool(1, 2))
+		})
 	}
 	// dials must go through the proxy
 	checkDials := func() {
